@@ -16,8 +16,10 @@ cleanup() { git -C /repo worktree remove --force "$wt" >/dev/null 2>&1; rm -rf "
 dp="$(cat "$d/demo_path.txt" | tr -d ' \n')"
 pkgdir="$(dirname "$dp")"
 res=ok
+RACE=""
+[ -f "$d/NEEDS_RACE" ] && RACE="-race"   # the demonstration only fails under the race detector
 cp "$d/demo_test.go" "$wt/$dp"
-if ! (cd "$wt" && go test -count=1 -run 'TestSeededDemo' "./$pkgdir/" >"$wt/.demo0.log" 2>&1); then
+if ! (cd "$wt" && go test $RACE -count=1 -run 'TestSeededDemo' "./$pkgdir/" >"$wt/.demo0.log" 2>&1); then
   echo "demo fails on the UNCHANGED tree:"; tail -15 "$wt/.demo0.log"; res=demo-fails-unchanged
 fi
 grep -q "no tests to run" "$wt/.demo0.log" && { echo "demo did not run any test"; res=demo-empty; }
@@ -32,7 +34,7 @@ if ! (cd "$wt" && go test -count=1 ./... >"$wt/.suite.log" 2>&1); then
   echo "existing suite FAILS with the patch:"; grep -E "^(--- FAIL|FAIL|ok)" "$wt/.suite.log" | head; res=suite-fails
 fi
 cp "$d/demo_test.go" "$wt/$dp"
-if (cd "$wt" && go test -count=1 -run 'TestSeededDemo' "./$pkgdir/" >"$wt/.demo1.log" 2>&1); then
+if (cd "$wt" && go test $RACE -count=1 -run 'TestSeededDemo' "./$pkgdir/" >"$wt/.demo1.log" 2>&1); then
   echo "demo PASSES with the patch (should fail)"; res=demo-passes-with-patch
 else
   grep -E "^(--- FAIL|panic|FAIL)" "$wt/.demo1.log" | head -3
